@@ -56,6 +56,44 @@ def reported_ip_is_source(ctx, rule: str):
            fail=f"the device is reported with `{show(info.get('ip', ('top', '?')))[:80]}` instead of the address the reply came from")
 
 
+
+def _ctor_default_collection(prog, cls, attr):
+    """sorted members of the constant collection `self.<attr>` holds after construction, when the constructor stores one of its parameters there
+    (possibly through tuple() / list() / frozenset()) and no constructor call of the package passes that parameter: its folded default"""
+    from ..ctor import init_attrs
+    try:
+        v = init_attrs(prog, cls).get(attr)
+    except AnalysisError:
+        return None
+    if v is None:
+        return None
+    v = strip(v)
+    while v[0] == "call" and v[1][0] == "ext" and v[1][1] in ("tuple", "list", "frozenset", "set", "sorted") and len(v[2]) == 1:
+        v = strip(v[2][0])
+    if is_const(v) and isinstance(v[1], (list, tuple, set, frozenset)):
+        return sorted(v[1])
+    if v[0] in ("list", "tuple", "set") and all(is_const(x) for x in v[1]):
+        return sorted(x[1] for x in v[1])
+    if v[0] != "param":
+        return None
+    ini = prog.lookup_method(cls, "__init__")
+    a = ini.node.args
+    pos = a.posonlyargs + a.args
+    dflt = dict(zip([x.arg for x in pos[len(pos) - len(a.defaults):]], a.defaults))
+    dflt.update({x.arg: d for x, d in zip(a.kwonlyargs, a.kw_defaults) if d is not None})
+    if v[1] not in dflt:
+        return None
+    for m in prog.modules.values():
+        if m.is_test:
+            continue
+        for n in ast.walk(m.tree):
+            if isinstance(n, ast.Call) and (n.func.id if isinstance(n.func, ast.Name) else getattr(n.func, "attr", None)) == cls.name:
+                idx = [x.arg for x in pos].index(v[1]) - 1 if v[1] in [x.arg for x in pos] else None
+                if any(k.arg in (v[1], None) for k in n.keywords) or any(isinstance(x, ast.Starred) for x in n.args) or (idx is not None and len(n.args) > idx):
+                    return None          # some caller chooses the ports: not a constant of the package
+    val = prog.fold_or_none(dflt[v[1]], ini.module)
+    return sorted(val) if isinstance(val, (list, tuple, set, frozenset)) and all(isinstance(x, int) for x in val) else None
+
 def run(ctx):
     prog = ctx.prog
     ctx.explanation = ("value-flow terms of _get_device_info (which byte range / byte order each reported field is read from, provenance of "
@@ -332,6 +370,9 @@ def run(ctx):
                 ports = sorted(src[1])
             elif src[0] in ("list", "tuple", "set") and all(is_const(x) for x in src[1]):
                 ports = sorted(x[1] for x in src[1])
+            elif src[0] == "attr" and src[1] == ("param", sd.params[0]):
+                # the ports held in an attribute the constructor fills from a parameter nobody in the package supplies: its (constant) default
+                ports = _ctor_default_collection(prog, sd.cls, src[2])
     s_ok = bool(sends) and all(c[2][0] == ("const", msg) and strip(c[2][1])[0] == "tuple" and strip(strip(c[2][1])[1][0]) == ("attr", ("param", sd.params[0]), "_target") for c in sends)
     if ports is None and sends:
         # the destinations precomputed as a list of (target, port) pairs the send loop iterates over
@@ -375,6 +416,29 @@ def run(ctx):
                func=dsc.qual, file=file, node=n,
                fail="discover() can report without having listened for the whole timeout: devices that answer after the first reply are not reported")
     ctx.require_min("discover_returns", 1)
+    # ... and the socket it listens on stays open that long: none of the callbacks asyncio invokes while discover() sleeps (connection_made,
+    # datagram_received, error_received) closes or aborts the transport - an ICMP error for one probe port, or one odd reply, must not end the
+    # listening before the other devices' replies have arrived
+    from ..helpers import with_helpers as _wh17
+    dp_cls = prog.cls("msmart.discover._DiscoverProtocol")
+    n_cb = 0
+    for cb in ("connection_made", "datagram_received", "error_received"):
+        f0 = prog.lookup_method(dp_cls, cb)
+        if f0 is None or not f0.qual.startswith("msmart."):
+            continue
+        n_cb += 1
+        closers = []
+        for f2 in _wh17(prog, f0):
+            for n in ast.walk(f2.node):
+                if isinstance(n, ast.Call) and isinstance(n.func, ast.Attribute) and n.func.attr in ("close", "abort") and \
+                        any((isinstance(x, ast.Attribute) and x.attr in ("_transport", "transport")) or (isinstance(x, ast.Name) and x.id in ("transport", "_transport"))
+                            for x in ast.walk(n.func.value)):
+                    closers.append((f2, n))
+        ctx.ob("C17.e", f0.qual, not closers, f"{cb} leaves the listening socket open", func=f0.qual, file=f0.module.rel, node=closers[0][1] if closers else None,
+               fail=f"{cb} closes the discovery transport ({norm(closers[0][1])[:50] if closers else ''}): replies that arrive later within the timeout are never "
+                    "seen, so devices that answered with a well-formed reply are not reported")
+    ctx.count("listening_callbacks", n_cb)
+    ctx.require_min("listening_callbacks", 2)
     # ---- C17.t18 "every device that answers with a well-formed reply is reported" needs the other hosts' replies, whatever they are, not to
     # abort the run: the per-host containment and de-duplication obligations of C18 are re-run here, not assumed
     from . import c18
